@@ -81,3 +81,17 @@ Definition check_tocos (c : float * float) : bool := f_close9 (to_cos FS (fst c)
 Definition check_compose (c : list float * list float * list float) : bool :=
   let '(t1, t2, expected) := c in
   match compose_transform FS t1 t2 with Some l => fl_eqb l expected | None => false end.
+
+(* (h) develop_lattice: filltr of the cell, its TRCL list, translation of the
+   element, filltr given to the element *)
+Definition check_lattice_filltr (c : list float * list (list float) * V3 float * list float) : bool :=
+  let '(filltr, trcls, transl, expected) := c in
+  match lattice_filltr FS filltr trcls transl with Some l => fl_eqb l expected | None => false end.
+
+(* call-site condition of compose_transform: the second argument is a pure
+   translation (matrix exactly the identity) *)
+Definition check_second_is_translation (t2 : list float) : bool :=
+  match t2 with
+  | _ :: _ :: _ :: m => list_eqb PrimFloat.eqb m [1; 0; 0; 0; 1; 0; 0; 0; 1]%float
+  | _ => false
+  end.
